@@ -9,13 +9,17 @@ import sweep
 VERIF = sweep.VERIF
 args = [a for a in sys.argv[1:] if not a.startswith("--")]
 write_meta = "--write-meta" in sys.argv
-seeds = args or sorted(d for d in os.listdir(os.path.join(VERIF, "seeded")) if re.match(r"C\d\d-[A-Z]$", d))
+SEEDDIR = "seeded"
+for a in sys.argv[1:]:
+    if a.startswith("--dir="):
+        SEEDDIR = a[6:]  # e.g. --dir=benign : behaviour-preserving patches, every report is a false alarm
+seeds = args or sorted(d for d in os.listdir(os.path.join(VERIF, SEEDDIR)) if re.match(r"C\d\d-[A-Z]$|b\d+-\d+$", d))
 titles = {}
 for l in open(os.path.join(VERIF, "properties.jsonl")):
     d = json.loads(l); titles[d["id"]] = d["title"]
 
 def one(seed):
-    ov = sweep.overlay_from_patch(os.path.join(VERIF, "seeded", seed, "patch.diff"))
+    ov = sweep.overlay_from_patch(os.path.join(VERIF, SEEDDIR, seed, "patch.diff"))
     if ov is None:
         return seed, None, []
     with tempfile.NamedTemporaryFile("w", suffix=".json", delete=False) as f:
@@ -27,7 +31,7 @@ def one(seed):
     lines = [l for l in (r.stdout + r.stderr).splitlines() if re.match(r"(C\d\d) (violated|undecided) ", l) or l.startswith("LOAD")]
     return seed, ov, lines
 
-with ThreadPoolExecutor(max_workers=6) as ex:
+with ThreadPoolExecutor(max_workers=int(os.environ.get("SEEDMATRIX_JOBS", "6"))) as ex:
     results = list(ex.map(one, seeds))
 for seed, ov, lines in results:
     if ov is None:
@@ -41,7 +45,7 @@ for seed, ov, lines in results:
     for l in lines[:3]:
         print("     " + l[:260])
     if write_meta:
-        d = os.path.join(VERIF, "seeded", seed)
+        d = os.path.join(VERIF, SEEDDIR, seed)
         mp = os.path.join(d, "meta.json")
         old = json.load(open(mp)) if os.path.exists(mp) else {}
         prop = seed.split("-")[0]
